@@ -141,19 +141,36 @@ class Check:
         /repo's C sources + harness sources + flags.  Returns path of the executable, or None
         (and records the compile log) if compilation failed."""
         srcs = [s if os.path.isabs(s) else os.path.join(VERIF, s) for s in sources]
-        hdeps = [os.path.join(VERIF, "harness", f) for f in sorted(os.listdir(os.path.join(VERIF, "harness")))
-                 if f.endswith(".h")]
-        key = file_hash(repo_sources() + srcs + hdeps + list(deps or []), " ".join(flags) + compiler)
+        # headers of /verif/harness that the given sources (transitively) include
+        hdir = os.path.join(VERIF, "harness")
+        hdeps, todo = set(), [x for x in srcs if x.startswith(VERIF)]
+        while todo:
+            f = todo.pop()
+            try:
+                txt = open(f, errors="replace").read()
+            except OSError:
+                continue
+            for m in re.findall(r'#\s*include\s*"([^"]+)"', txt):
+                h = os.path.join(hdir, os.path.basename(m))
+                if os.path.exists(h) and h not in hdeps:
+                    hdeps.add(h)
+                    todo.append(h)
+        hdeps = sorted(hdeps)
+        key = file_hash(repo_sources() + srcs + hdeps + list(deps or []), " ".join(flags) + compiler + REPO)
         d = os.path.join(CACHE, "bin")
         os.makedirs(d, exist_ok=True)
         exe = os.path.join(d, f"{name}-{key}")
         if os.path.exists(exe):
             return exe
-        # drop stale binaries of the same harness
+        # keep the cache small, but never delete a binary another concurrent run may be using:
+        # only binaries of the same harness older than 2 hours go
+        now = time.time()
         for f in os.listdir(d):
             if f.startswith(name + "-"):
+                fp = os.path.join(d, f)
                 try:
-                    os.remove(os.path.join(d, f))
+                    if now - os.path.getmtime(fp) > 7200:
+                        os.remove(fp)
                 except OSError:
                     pass
         cmd = [compiler, "-I" + REPO, "-I" + os.path.join(VERIF, "harness"), "-DMIR_VERIF", *flags, *srcs, "-o", exe + ".tmp", *libs]
@@ -336,9 +353,9 @@ class Check:
     # ------------------------------------------------------------------ verdicts
     def _next_replay(self):
         n = 1
-        while os.path.exists(os.path.join(VERIF, "replays", f"{self.pid}-{n}.json")):
+        while os.path.exists(os.path.join(VERIF, "replays", f"{self.pid}-{os.getpid()}-{n}.json")):
             n += 1
-        return os.path.join(VERIF, "replays", f"{self.pid}-{n}.json")
+        return os.path.join(VERIF, "replays", f"{self.pid}-{os.getpid()}-{n}.json")
 
     def violation(self, replay, what, signature=None, found_input=True):
         """report one violation (or a KNOWN-FINDING if its signature is listed)"""
